@@ -39,11 +39,13 @@ def generate(rng, tier):
         regs = s.regs_x86(0x999, base, first_fp) if arch == "x86" else s.regs_a64(M64, 0x998, base, first_fp)
         for extra in (0, 1, 3):
             for via in (0, 1):
-                s.add("newcache CI"); s.add("newcache CM")
-                n = depth + 2 + extra
-                li = s.add("iter U CI 0x999 %s S %d %d" % (regs, n, via), tag="%s:fpchain:%d:%d:%d" % (arch, depth, extra, via))
-                lm = s.add("manual U CM 0x999 %s S %d" % (regs, n))
-                s.meta[li] = {"twin": lm}
+                # the given instruction pointer is yielded first whatever it is: an ordinary address, 0, 1, 2^64-1
+                for pc0 in (0x999, 0, 1, M64):
+                    s.add("newcache CI"); s.add("newcache CM")
+                    n = depth + 2 + extra
+                    li = s.add("iter U CI %s %s S %d %d" % (hx(pc0), regs, n, via), tag="%s:fpchain:%d:%d:%d:%s" % (arch, depth, extra, via, hx(pc0)))
+                    lm = s.add("manual U CM %s %s S %d" % (hx(pc0), regs, n))
+                    s.meta[li] = {"twin": lm}
         out.append(("fpchain-%s-%d" % (arch, w), s))
     # walks that END on an uncacheable (generic) step: the registers have already been advanced
     # when the null return address is seen; further next() calls must still return Ok(None)
